@@ -246,7 +246,9 @@ func main() {
 	out := flag.String("out", "", "output directory")
 	replay := flag.String("lines", "", "file of `kind<TAB>case line` to execute instead of generating")
 	stall := flag.Int("stall", 240, "seconds without a new case after which the run is closed as stalled")
+	opt := flag.Int("optimeout", 10, "seconds after which a single operation is answered with `timeout`")
 	flag.Parse()
+	caseTimeout = time.Duration(*opt) * time.Second
 	lines := *replay
 	fn, ok := areas[*area]
 	if lines != "" {
